@@ -57,6 +57,14 @@ CHECKS = {
          "Exploration. Literals are built from pieces {text, {{, }}, {, }, quotes, escapes, newline, expression} in every order up to 4/3 (quick) or 5/4 (thorough) pieces for quoted/raw forms, each under 6 values of the substituted variable (including values that contain {{tick()}}, {{x}} (self-reproducing), }} and {{); random literals to 8 pieces; thorough adds FuzzInterpolate. Oracle: the harness's own single left-to-right pass (leftmost {{, nearest following }}, continue after the substituted text, raw strings untouched), the number of tick() side effects written in the literal itself, termination within a node-visit budget (step-counting debugger), no panic.",
          "Empty {{}}, code the reference does not know and the text of an inline error marker are wildcard slots (the documentation leaves them open).",
          "DESIGN.md 4/C14"),
+ "C11": ("rapid-generated sink programs x concurrent event batches on 2-16 workers; per-event value/error oracle from the payload; Go race detector as a history invariant (race build)",
+         "Exploration. Programs with 1-4 sinks over overlapping kind patterns (distinct priorities) whose bodies derive locals from event.state, call a shared global function, loop with block-local lets, interpolate strings, update a global inside a mutex block and then succeed or raise(type, detail, data) built from the event's own id; 50-400 events are fired from 2-16 concurrent goroutines with AddEventAndWait (a quarter of the cases through a relay sink that re-adds them with addEvent). Per event the echoed locals, helper result, interpolated text, event.name/state, the set of sinks that ran (fail-on-first-error prefix) and the error report (exactly the failing sink, with that invocation's type/detail/data and event) must be what the payload dictates; the mutex-protected global equals the number of increments. The test binary is built with -race: after every case the detector's log is read and a report whose two access sites both lie in interpreter/ or scope/ is a violation (races elsewhere are counted, not reported).",
+         "Schedules are sampled; the detector reports only races that occur in an explored execution. Non-trivial = two invocations of one sink overlapped (measured from the recorded start/echo positions).",
+         "DESIGN.md 4/C11, 2.7"),
+ "C16": ("exhaustive command x debugger-state x argument-class table + rapid-generated command sequences against a live debugger session",
+         "Exploration. 15 command words x 14 reachable debugger states (fresh, parsed, finished, running, suspended at top level / inside nested calls, error-suspended, after StopThreads, ...) x typed argument tuples up to arity+1 (valid / running / unknown / negative / huge / non-numeric thread ids, known / unknown / malformed source:line, identifiers, terminating / ill-typed / unparsable expressions, step kinds, garbage) are enumerated completely (31 k cases), plus random sequences of state-changing actions and commands. After every command: HandleInput did not panic; it returned an error or a json.Marshal-able result; a following `status` AND a write-lock probe answer within 5 s; at the end every suspended thread can be resumed and the program completes.",
+         "Commands are issued from one goroutine at a time (StopThreads with two suspended threads races on a map: out of the statement, excluded and counted). 'Suspended inside a sink on a pool worker' is not among the states.",
+         "DESIGN.md 4/C16"),
  "C17": ("exhaustive enumeration + rapid random generation of (root, path) pairs against a sentinel-file oracle",
          "Exploration. Every (root form x path) pair over a 7-segment alphabet up to length 4 (quick) / 6 (thorough) is enumerated completely against a directory tree in which every reachable location, inside and outside the root, holds a sentinel naming its own canonical path; random longer paths with hostile segments are added by rapid, both through Resolve and through ECAL import statements. A returned content that names a location outside the lexical root is a violation. Exhaustive within the bound, sampled beyond; no absence proof for longer paths.",
          "Trusts the harness's 10-line stack normaliser for the root only (the content oracle is independent of any normaliser); symlinks are out of scope (the statement says lexically inside).",
